@@ -598,6 +598,8 @@ class Chrono(Plugin):
         if self.abstract_time and name == 'duration_cast' and len(args) == 1: return 'v_nondet_i64()'
         return None
     def operator_call(self, unit, n, rd, args):
+        if args and len(args) == 2 and rd.get('name') == 'operator=' and all(self.node_dur(a) for a in args):
+            return '(%s = %s)' % (unit.expr(args[0]), unit.expr(args[1]))         # plain assignment of a tick count (also in the exact model)
         if not self.abstract_time or not args or not any(self.node_dur(a) for a in args): return None
         op = rd.get('name')
         if op in ('operator<', 'operator>', 'operator<=', 'operator>=', 'operator==', 'operator!='):
